@@ -96,13 +96,15 @@ var subStrings = ev.Register("strings", func(c StringCase) error {
 
 // MakeRemoteSource route: (type, *url.URL edited field-wise, sub-path)
 type MakeCase struct {
-	Type   string `json:"type"`
-	URL    string `json:"url"`    // parsed with url.Parse
-	User   string `json:"user"`   // "" none | "u" | "u:p" | ":p"
-	Scheme string `json:"scheme"` // "" keep
-	Query  string `json:"query"`  // "-" keep
-	Path   string `json:"path"`   // "-" keep
-	Sub    string `json:"sub"`
+	Type    string `json:"type"`
+	URL     string `json:"url"`    // parsed with url.Parse
+	User    string `json:"user"`   // "" none | "u" | "u:p" | ":p"
+	Scheme  string `json:"scheme"` // "" keep
+	Query   string `json:"query"`  // "-" keep
+	Path    string `json:"path"`   // "-" keep
+	Sub     string `json:"sub"`
+	Force   bool   `json:"force_query,omitempty"` // set URL.ForceQuery
+	Relpath bool   `json:"rel_path,omitempty"`    // drop the leading slash of URL.Path
 }
 
 var subMake = ev.Register("make", func(c MakeCase) error {
@@ -127,6 +129,13 @@ var subMake = ev.Register("make", func(c MakeCase) error {
 	}
 	if c.Path != "-" {
 		u.Path = c.Path
+		u.RawPath = ""
+	}
+	if c.Force {
+		u.ForceQuery = true
+	}
+	if c.Relpath {
+		u.Path = strings.TrimPrefix(u.Path, "/")
 		u.RawPath = ""
 	}
 	before := *u
@@ -163,6 +172,9 @@ var subMake = ev.Register("make", func(c MakeCase) error {
 
 // typeMatches: an unedited case whose source type suits the URL it was generated with.
 func typeMatches(c MakeCase) bool {
+	if c.Relpath {
+		return false
+	}
 	if c.User != "" || c.Scheme != "" || c.Query != "-" || c.Path != "-" {
 		return false
 	}
@@ -252,6 +264,9 @@ func TestPropMake(t *testing.T) {
 			c.Type = rapid.SampledFrom([]string{"https", "http"}).Draw(t, "atype")
 		}
 		c.Sub = rapid.SampledFrom([]string{"", "modules/vpc", "a", "with space"}).Draw(t, "goodsub")
+		// URL structs built by hand differ from parsed ones in representation only
+		c.Force = rapid.IntRange(0, 5).Draw(t, "force") == 0
+		c.Relpath = rapid.IntRange(0, 5).Draw(t, "relpath") == 0
 		// edit one field (sometimes two, sometimes none)
 		nEdits := rapid.SampledFrom([]int{0, 1, 1, 1, 1, 2}).Draw(t, "nedits")
 		for i := 0; i < nEdits; i++ {
